@@ -16,6 +16,8 @@ This private submodule is *not* intended for importation by downstream callers.
 from beartype.roar import BeartypePlugInstancecheckStrException
 from beartype.roar._roarexc import _BeartypeCallHintPepRaiseException
 from beartype.typing import Optional
+from beartype._check.cls.hint.data.hintdataerror import HintDataError
+from beartype._check.cls.hint.hintsane import HintSane
 from beartype._check.cls.hint.tree.hinttreeerror import HintTreeError
 from beartype._data.typing.datatyping import TupleTypes
 from beartype._util.cls.pep.clspep3119 import die_unless_type_isinstanceable
@@ -225,7 +227,19 @@ def find_cause_type_instance_origin(cause: HintTreeError) -> HintTreeError:
     # Else, this hint originates from such a type.
 
     # Output cause to be returned.
-    cause_return = cause.permute_cause_hint_child_insane(hint_type)
+    #
+    # Note that this origin type is intentionally encapsulated as is *WITHOUT*
+    # being sanified as a child hint of this hint. This origin type is the
+    # isinstanceable class against which the type-checking code generated for
+    # this hint tested this pith (e.g., "tuple" for "tuple[int, str]") rather
+    # than a child hint written by the user. Sanifying this origin type would
+    # erroneously apply user-defined hint overrides to this type (e.g., mapping
+    # "tuple" to "tuple[int, str]" under "hint_overrides={tuple: tuple[int,
+    # str]}"), causing this cause to test this pith against something other than
+    # the class tested by that code -- typically raising non-human-readable
+    # exceptions rather than the expected violation.
+    cause_return = cause.permute_cause(
+        hint_curr=HintDataError(HintSane(hint_type)))
 
     # Defer to the getter function handling non-"typing" classes. Presto!
     return find_cause_instance_type(cause_return)
